@@ -29,6 +29,7 @@ import (
 	"golang.org/x/tools/go/packages"
 )
 
+var mapRaces bool
 var stats = map[string]int{}
 var perPkg = map[string]map[string]int{}
 
@@ -48,6 +49,7 @@ func fatal(format string, args ...interface{}) {
 func main() {
 	tests := flag.Bool("tests", false, "also rewrite _test.go files")
 	report := flag.String("report", "", "write a JSON rewrite report here")
+	flag.BoolVar(&mapRaces, "mapraces", false, "put a simrt.MapOp scheduling point in front of accesses to maps that several goroutines can reach")
 	flag.Parse()
 	if flag.NArg() < 2 {
 		fatal("usage: simify [-tests] [-report f] <moduleDir> <patterns>...")
@@ -150,6 +152,7 @@ type rewriter struct {
 	goN     map[string]int
 	hoist   map[ast.Stmt]bool // blocks we produced whose last statement must carry a label
 	funcs   []string          // enclosing function names
+	fns     []ast.Node        // enclosing FuncDecl / FuncLit nodes
 }
 
 func (r *rewriter) fail(pos token.Pos, format string, args ...interface{}) {
@@ -276,6 +279,9 @@ func (r *rewriter) rewrite() {
 		switch n := c.Node().(type) {
 		case *ast.FuncDecl:
 			r.funcs = append(r.funcs, funcDeclName(n))
+			r.fns = append(r.fns, n)
+		case *ast.FuncLit:
+			r.fns = append(r.fns, n)
 		}
 		return true
 	}
@@ -283,6 +289,21 @@ func (r *rewriter) rewrite() {
 		switch n := c.Node().(type) {
 		case *ast.FuncDecl:
 			r.funcs = r.funcs[:len(r.funcs)-1]
+			r.fns = r.fns[:len(r.fns)-1]
+		case *ast.FuncLit:
+			r.fns = r.fns[:len(r.fns)-1]
+		case *ast.IfStmt:
+			if mapRaces && c.Index() >= 0 {
+				for _, p := range r.mapProbes(n) {
+					c.InsertBefore(p)
+				}
+			}
+		case *ast.ReturnStmt:
+			if mapRaces && c.Index() >= 0 {
+				for _, p := range r.mapProbes(n) {
+					c.InsertBefore(p)
+				}
+			}
 		case *ast.GoStmt:
 			c.Replace(r.goStmt(n))
 		case *ast.SelectStmt:
@@ -299,6 +320,10 @@ func (r *rewriter) rewrite() {
 				handledRecv[u] = true
 				r.mark("recv stmt")
 				c.Replace(&ast.ExprStmt{X: call(rt("ChanRecv"), u.X)})
+			} else if mapRaces && c.Index() >= 0 {
+				for _, p := range r.mapProbes(n) {
+					c.InsertBefore(p)
+				}
 			}
 		case *ast.SendStmt:
 			if c.Name() != "Comm" {
@@ -331,6 +356,11 @@ func (r *rewriter) rewrite() {
 					r.mark("external blocking call")
 				}
 			}
+			if mapRaces && c.Index() >= 0 {
+				for _, p := range r.mapProbes(n) {
+					c.InsertBefore(p)
+				}
+			}
 			if c.Index() >= 0 {
 				for _, p := range r.mapInsertReg(n.Lhs) {
 					c.InsertBefore(p)
@@ -339,6 +369,11 @@ func (r *rewriter) rewrite() {
 				r.fail(n.Pos(), "pointer-keyed map insert outside a statement list")
 			}
 		case *ast.IncDecStmt:
+			if mapRaces && c.Index() >= 0 {
+				for _, p := range r.mapProbes(n) {
+					c.InsertBefore(p)
+				}
+			}
 			if c.Index() >= 0 {
 				for _, p := range r.mapInsertReg([]ast.Expr{n.X}) {
 					c.InsertBefore(p)
@@ -749,8 +784,12 @@ func (r *rewriter) rangeMap(n *ast.RangeStmt) ast.Stmt {
 	loop := &ast.RangeStmt{Key: blank(), Value: raw, Tok: token.DEFINE, X: call(rt("MapKeys"), mv), Body: &ast.BlockStmt{List: body}}
 	b := &ast.BlockStmt{List: []ast.Stmt{
 		&ast.AssignStmt{Lhs: []ast.Expr{mv}, Tok: token.DEFINE, Rhs: []ast.Expr{n.X}},
-		loop,
 	}}
+	if mapRaces && !r.privateMap(n.X) {
+		r.mark("map access probe")
+		b.List = append(b.List, &ast.ExprStmt{X: call(rt("MapOp"), mv, ast.NewIdent("false"), strLit(r.probeSite(n.X)))})
+	}
+	b.List = append(b.List, loop)
 	r.hoist[b] = true
 	return b
 }
@@ -818,4 +857,229 @@ func (r *rewriter) sqlPoint(ce *ast.CallExpr) {
 		return
 	}
 	r.mark("sql point")
+}
+
+// ---- shared-map access probes (-mapraces) ----
+
+func (r *rewriter) exprText(e ast.Expr) string {
+	var buf bytes.Buffer
+	if err := format.Node(&buf, r.fset, e); err != nil {
+		return "?"
+	}
+	return strings.Join(strings.Fields(buf.String()), " ")
+}
+
+func (r *rewriter) probeSite(m ast.Expr) string {
+	return r.pkgName + "." + r.curFunc() + ": " + r.exprText(m)
+}
+
+// privateMap: m is a plain local variable of the innermost enclosing function
+// (not a parameter, not captured from an outer function, not package level):
+// only this invocation can reach it unless it was handed out, which the
+// probes then see at the place it was handed to.
+func (r *rewriter) privateMap(m ast.Expr) bool {
+	for {
+		p, ok := m.(*ast.ParenExpr)
+		if !ok {
+			break
+		}
+		m = p.X
+	}
+	id, ok := m.(*ast.Ident)
+	if !ok {
+		return false
+	}
+	v, ok := r.info.Uses[id].(*types.Var)
+	if !ok || v.IsField() || len(r.fns) == 0 {
+		return false
+	}
+	fn := r.fns[len(r.fns)-1]
+	var body *ast.BlockStmt
+	switch f := fn.(type) {
+	case *ast.FuncDecl:
+		body = f.Body
+	case *ast.FuncLit:
+		body = f.Body
+	}
+	return body != nil && v.Pos() >= body.Pos() && v.Pos() < body.End()
+}
+
+// plainExpr: evaluating e twice is harmless and cannot synchronise with
+// another goroutine: no call (conversions, len and cap excepted), no function
+// literal, no receive, no && or || (an operand that is only evaluated on one
+// side must not be evaluated by the probe).
+func (r *rewriter) plainExpr(e ast.Node) bool {
+	ok := true
+	ast.Inspect(e, func(n ast.Node) bool {
+		switch x := n.(type) {
+		case *ast.CallExpr:
+			if tv, found := r.info.Types[x.Fun]; found && tv.IsType() {
+				return true
+			}
+			if id, isID := x.Fun.(*ast.Ident); isID {
+				if b, isB := r.info.Uses[id].(*types.Builtin); isB && (b.Name() == "len" || b.Name() == "cap") {
+					return true
+				}
+			}
+			ok = false
+		case *ast.FuncLit:
+			ok = false
+		case *ast.UnaryExpr:
+			if x.Op == token.ARROW {
+				ok = false
+			}
+		case *ast.BinaryExpr:
+			if x.Op == token.LAND || x.Op == token.LOR {
+				ok = false
+			}
+		}
+		return ok
+	})
+	return ok
+}
+
+type mapAccess struct {
+	m     ast.Expr
+	write bool
+}
+
+// mapReads collects the map index reads (and len(m)) inside e.
+func (r *rewriter) mapReads(e ast.Node, out *[]mapAccess) {
+	if e == nil {
+		return
+	}
+	ast.Inspect(e, func(n ast.Node) bool {
+		switch x := n.(type) {
+		case *ast.IndexExpr:
+			if r.isMap(x.X) {
+				*out = append(*out, mapAccess{x.X, false})
+			}
+		case *ast.CallExpr:
+			if id, isID := x.Fun.(*ast.Ident); isID && len(x.Args) == 1 {
+				if b, isB := r.info.Uses[id].(*types.Builtin); isB && b.Name() == "len" && r.isMap(x.Args[0]) {
+					*out = append(*out, mapAccess{x.Args[0], false})
+				}
+			}
+		}
+		return true
+	})
+}
+
+// mapProbes returns the simrt.MapOp statements to put in front of s: one per
+// access of s to a map that is not private to the function, provided s does
+// nothing but evaluate plain expressions (then the accesses follow the probe
+// with no synchronisation in between).
+func (r *rewriter) mapProbes(s ast.Stmt) []ast.Stmt {
+	var acc []mapAccess
+	switch n := s.(type) {
+	case *ast.AssignStmt:
+		if !r.plainExpr(n) {
+			r.skippedProbe(n)
+			return nil
+		}
+		for _, l := range n.Lhs {
+			if ix, ok := l.(*ast.IndexExpr); ok && r.isMap(ix.X) {
+				acc = append(acc, mapAccess{ix.X, true})
+				r.mapReads(ix.X, &acc)
+				r.mapReads(ix.Index, &acc)
+			} else {
+				r.mapReads(l, &acc)
+			}
+		}
+		for _, e := range n.Rhs {
+			r.mapReads(e, &acc)
+		}
+	case *ast.IncDecStmt:
+		if !r.plainExpr(n) {
+			r.skippedProbe(n)
+			return nil
+		}
+		if ix, ok := n.X.(*ast.IndexExpr); ok && r.isMap(ix.X) {
+			acc = append(acc, mapAccess{ix.X, true})
+		} else {
+			r.mapReads(n.X, &acc)
+		}
+	case *ast.ExprStmt:
+		ce, ok := n.X.(*ast.CallExpr)
+		if !ok {
+			return nil
+		}
+		id, ok := ce.Fun.(*ast.Ident)
+		if !ok || len(ce.Args) != 2 {
+			return nil
+		}
+		if b, isB := r.info.Uses[id].(*types.Builtin); !isB || b.Name() != "delete" {
+			return nil
+		}
+		if !r.plainExpr(ce.Args[0]) || !r.plainExpr(ce.Args[1]) {
+			r.skippedProbe(n)
+			return nil
+		}
+		acc = append(acc, mapAccess{ce.Args[0], true})
+	case *ast.ReturnStmt:
+		if !r.plainExpr(n) {
+			r.skippedProbe(n)
+			return nil
+		}
+		for _, e := range n.Results {
+			r.mapReads(e, &acc)
+		}
+	case *ast.IfStmt:
+		// the init statement and the condition run first; the probes of an
+		// init statement that is an assignment are placed here because it is
+		// not in a statement list itself
+		if n.Init != nil {
+			if !r.plainExpr(n.Init) {
+				r.skippedProbe(n.Init)
+				return nil
+			}
+			switch i := n.Init.(type) {
+			case *ast.AssignStmt:
+				for _, l := range i.Lhs {
+					if ix, ok := l.(*ast.IndexExpr); ok && r.isMap(ix.X) {
+						acc = append(acc, mapAccess{ix.X, true})
+					}
+				}
+				for _, e := range i.Rhs {
+					r.mapReads(e, &acc)
+				}
+			default:
+				return nil
+			}
+		}
+		if r.plainExpr(n.Cond) {
+			r.mapReads(n.Cond, &acc)
+		} else {
+			r.skippedProbe(n.Cond)
+		}
+	}
+	var out []ast.Stmt
+	seen := map[string]bool{}
+	for _, a := range acc {
+		if r.privateMap(a.m) {
+			continue
+		}
+		k := fmt.Sprint(a.write) + r.exprText(a.m)
+		if seen[k] {
+			continue
+		}
+		seen[k] = true
+		r.mark("map access probe")
+		out = append(out, &ast.ExprStmt{X: call(rt("MapOp"), a.m, ast.NewIdent(fmt.Sprint(a.write)), strLit(r.probeSite(a.m)))})
+	}
+	return out
+}
+
+// skippedProbe counts statements with a map access that get no probe.
+func (r *rewriter) skippedProbe(n ast.Node) {
+	has := false
+	ast.Inspect(n, func(x ast.Node) bool {
+		if ix, ok := x.(*ast.IndexExpr); ok && r.isMap(ix.X) && !r.privateMap(ix.X) {
+			has = true
+		}
+		return !has
+	})
+	if has {
+		count(r.pkgName, "map access without probe (statement with calls)")
+	}
 }
